@@ -23,6 +23,8 @@ def run(tier, seed):
             cases[i + per - 1] = rep
         for c in cases:
             c["env"] = {"VM_FORCE_DEST": "2", "VERIF_CORE_BINDING": "1"}   # same destination law as the multi-rank runs of the same models below
+            if (c["mseed"] - cases[0]["mseed"]) % 2:
+                c["env"]["VM_STATELESS"] = "1"   # every other model: a third of the LPs never call SetState() (the generator context is all their state)
         recs = sim_common.run_sim_cases(chk, cases, timeout=300)
     finally:
         del os.environ["VM_FORCE_RNG"]
@@ -49,6 +51,8 @@ def run(tier, seed):
         for c in mcases:
             c["size"] = (0, 0, 1)[(c["mseed"] - base) % 3]   # same size class as the single-node runs of that model
             c["dest"] = 2
+            if (c["mseed"] - base) % 2:
+                c.setdefault("env", {})["VM_STATELESS"] = "1"
         for c, res, texts, anomaly in mpi_common.run_mpi_cases(chk, mcases, timeout=30 if tier == "quick" else 90, retries=0):
             o = outcome(texts)
             if o and not anomaly:
